@@ -26,7 +26,7 @@ LEVEL = 'fault_enumeration'
 SHARDS = {'thorough': 16}
 ANCHORS = ['pymodbus/transaction.py', 'pymodbus/client/sync.py', 'pymodbus/framer/rtu_framer.py']
 KINDS = ['tcp', 'rtu', 'ascii', 'binary', 'rtu-over-tcp', 'udp']
-BEHAVIOURS = ['own', 'exception', 'none', 'partial', 'garbage', 'wrong-unit', 'stale', 'late', 'oserror-send', 'oserror-recv', 'close']
+BEHAVIOURS = ['own', 'exception', 'none', 'partial', 'garbage', 'wrong-unit', 'stale', 'late', 'oserror-send', 'oserror-recv', 'close', 'split']
 TIMEOUT = 1.0
 UNIT = 1
 
@@ -40,6 +40,9 @@ def behaviour(name, framing, r):
         return {'kind': 'none'}
     if name == 'partial':
         return {'kind': 'partial', 'k': r.randint(1, 12)}
+    if name == 'split':
+        # the whole reply, in two segments well inside the timeout (the first one shorter than a header)
+        return {'kind': 'split', 'k': r.randint(1, 7), 'delay': r.choice([0.05, 0.2])}
     if name == 'garbage':
         g = bytearray(r.randrange(256) for _ in range(r.randint(1, 24)))
         if framing == 'tcp' and len(g) >= 6:
@@ -83,18 +86,18 @@ def binary_safe(m):
 def regions(kind, framing, cfg, names):
     out = set()
     R, roe, roi = cfg['retries'], cfg['retry_on_empty'], cfg['retry_on_invalid']
-    if R == 0 and roi and names and names[0] not in ('own', 'exception'):
+    if R == 0 and roi and names and names[0] not in ('own', 'exception', 'split'):
         out.add('retries-zero-treated-as-one')
     k = 0
     while k < len(names) and names[k] in ('none',):
         k += 1
-    if roe and not roi and 1 <= k <= R and k < len(names) and names[k] in ('own', 'exception'):
+    if roe and not roi and 1 <= k <= R and k < len(names) and names[k] in ('own', 'exception', 'split'):
         out.add('retry-on-empty-needs-retry-on-invalid')
     if framing == 'ascii' and any(n in ('garbage', 'partial') for n in names):
         out.add('ascii-client-raises-on-nonhex-reply')
     if framing == 'tcp' and 'stale' in names:
         out.add('tcp-reply-tid-unchecked')
-    if kind == 'udp' and (roe or roi) and R >= 1 and names[0] not in ('own', 'exception'):
+    if kind == 'udp' and (roe or roi) and R >= 1 and names[0] not in ('own', 'exception', 'split'):
         out.add('udp-retry-reads-header-first')
     return out
 
@@ -102,14 +105,14 @@ def regions(kind, framing, cfg, names):
 def must_succeed(cfg, names):
     """scripts for which the documented options oblige the client to return the reply"""
     R, roe, roi = cfg['retries'], cfg['retry_on_empty'], cfg['retry_on_invalid']
-    if names[0] in ('own', 'exception'):
+    if names[0] in ('own', 'exception', 'split'):
         return True
     for flag, fault in ((roe, 'none'), (roi, 'wrong-unit')):
         if flag:
             k = 0
             while k < len(names) and names[k] == fault:
                 k += 1
-            if 1 <= k <= R and k < len(names) and names[k] in ('own', 'exception'):
+            if 1 <= k <= R and k < len(names) and names[k] in ('own', 'exception', 'split'):
                 return True
     return False
 
@@ -124,6 +127,8 @@ def run_script(run, case):
         for b in script:
             if b['kind'] == 'close':
                 b['kind'] = 'none'                # no connection to close on a serial line / datagram socket
+            if b['kind'] == 'split':
+                b['kind'] = 'own'                 # a serial line delivers a frame without gaps, a datagram is never split: only TCP segments
     peer = P.ScriptedPeer(framing, script=script, timeout=TIMEOUT)
     if kind in ('rtu', 'ascii', 'binary'):
         orig = peer.before_send
@@ -207,7 +212,7 @@ def run_script(run, case):
                 if cls.startswith('other') and classify_result(result, own_exc, None, UNIT, None, framing) == 'own':
                     cls = 'own-exception'
                 run.count('result:%s' % cls.split(':')[0])
-                sent_own = any(n in ('own', 'late') for n in consumed)
+                sent_own = any(n in ('own', 'late', 'split') for n in consumed)
                 sent_exc = 'exception' in consumed
                 if cls == 'own' and not sent_own:
                     kinds['reply-from-nowhere'] = 'a normal reply was returned although the peer never sent one (script %r)' % (consumed,)
